@@ -21,6 +21,16 @@ Definition denote (k : nat) (n : Z) : Q := inject_Z n / inject_Z (pow10Z k).
 Record atom_num := { an_xyz : list Q; an_sof : Q; an_u : list Q }.
 Definition atom_scaled (a : atom_num) : list Z * Z * list Z := (map (scaled 6) (an_xyz a), scaled 5 (an_sof a), map (scaled 5) (an_u a)).
 
+(* Atom.__str__ (atom.py, as repaired by fc4c2ac / 6588dd5): the kind of line is decided on the values as they are written -
+   anisotropic (all six U values) exactly when one of U33, U23, U13, U12 is not written as 0.00000, otherwise isotropic (U11 only).
+   Atom.parse_line / set_atom_parameters: the values of a written line, missing ones are zero. *)
+Definition aniso_line (u : list Q) : bool := existsb (fun x => negb (Z.eqb (scaled 5 x) 0)) (skipn 2 u).
+Definition u_written (u : list Q) : list Z := if aniso_line u then map (scaled 5) u else map (scaled 5) (firstn 1 u).
+Definition u_read (w : list Z) : list Q := map (denote 5) w ++ repeat 0 (6 - length w).
+Definition atom_written (a : atom_num) : list Z * Z * list Z := (map (scaled 6) (an_xyz a), scaled 5 (an_sof a), u_written (an_u a)).
+(* the decision of the pinned code after fc4c2ac and before 6588dd5: the rounded values had to sum to MORE than 0.00001 *)
+Definition aniso_line_old (u : list Q) : bool := Z.ltb 1 (fold_right Z.add 0%Z (map (fun x => Z.abs (scaled 5 x)) (skipn 2 u))).
+
 (* WGHT._as_string (as repaired): short form exactly when c, d, e, f have their defaults *)
 Definition wght_defaults : list Q := [1 # 10; 0; 0; 0; 0; 33333 # 100000].
 Definition wght_written (v : list Q) : list Q :=
